@@ -74,13 +74,13 @@ def gen(shard, tier):
     slots = ['n', 'c'] + list(range(n)) + [f'{i}+' for i in range(n)]
     if tier != 'thorough' and n >= 3:
         slots = ['n', 0, n - 1, f'{n - 1}+']
-    for k in range(0, d['premod_slots'] + 1):
+    for k in range(0, (d['premod_slots'] if n <= 3 else 1) + 1):   # two pre-modified slots up to length 3
         for pre in itertools.combinations(slots, k):
             for nt, ct in (TERM_PAIRS if tier == 'thorough' else TERM_PAIRS_QUICK):
                 if True:
                     c = {'seq': seq, 'pre': list(pre), 'ir': shard['ir'], 'nt': nt, 'ct': ct}
-                    if tier == 'thorough':
-                        c['full'] = True
+                    if tier == 'thorough' and n <= 3:
+                        c['full'] = True   # every max_mods x mode x return type combination
                     yield c, k + 1, True
 
 
